@@ -102,6 +102,16 @@ Theorem C06_sort_never_raises : forall f (l : list (nat * pv)),
 Proof. intros f l. exact (sort_law tbl generated_table_ok f nat l). Qed.
 Print Assumptions C06_sort_never_raises.
 
+(* ... and it is THE stable sort: any permutation of the input (values paired with their positions) in which every item comes
+   [before] the later ones - less, or equal and earlier in the input - is the list the model's insertion sort returns.  (This is
+   what licenses comparing the model with CPython's timsort.) *)
+Theorem C06_sort_is_the_stable_sort : forall f (vals : list pv) l2,
+  Forall (fun v => cmp_ok tbl f v = true) vals ->
+  Permutation (combine (seq 0 (length vals)) vals) l2 -> StronglySorted (before tbl) l2 ->
+  sort_by tbl (combine (seq 0 (length vals)) vals) = Ok l2.
+Proof. intros f. exact (stable_sort_law tbl generated_table_ok f). Qed.
+Print Assumptions C06_sort_is_the_stable_sort.
+
 (* classes with use_symbolic_comparison: == and != are sym_eq, i.e. pg.eq / pg.ne
 (also hash() is sym_hash; [same]: a and b are one Python object, in which case Object.sym_eq answers by identity) *)
 Theorem C06_object_operators : forall f same a b, (exists n u e, a = PObj n u e) -> (same = true -> a = b) ->
